@@ -666,3 +666,82 @@ func collOf(asNil bool, items []any) system.Collection {
 	}
 	return c
 }
+
+// ---------------------------------------------------------------------------
+// temporal text comparison (shared by C02, C05, C09, C15)
+
+// fhirTemporalEqual compares two FHIR/FHIRPath temporal strings as
+// (instant, precision, offset) at millisecond granularity; Z ≡ +00:00.
+func temporalEqual(a, b string, isTime bool) (bool, string) {
+	pa, ea := parseAnyTemporal(a, isTime)
+	pb, eb := parseAnyTemporal(b, isTime)
+	if ea != nil || eb != nil {
+		return false, fmt.Sprintf("unparsable (%v / %v)", ea, eb)
+	}
+	if pa.prec != pb.prec {
+		// fraction digits beyond milliseconds are not representable in System values
+		if !(pa.prec >= 6 && pb.prec >= 6) {
+			return false, fmt.Sprintf("precision differs (want %s got %s)", precName(pa), precName(pb))
+		}
+	}
+	if pa.hasOff != pb.hasOff || pa.off != pb.off {
+		if !(pa.hasOff && pb.hasOff && pa.off == 0 && pb.off == 0) {
+			return false, "offset differs"
+		}
+	}
+	ta, tb := pa.goTime(), pb.goTime()
+	if ta.UnixMilli() != tb.UnixMilli() {
+		return false, "instant differs"
+	}
+	return true, ""
+}
+
+func precName(t temporal) string {
+	names := []string{"year", "month", "day", "hour", "minute", "second"}
+	if t.prec < 6 {
+		return names[t.prec]
+	}
+	if len(t.frac) <= 3 {
+		return "millisecond"
+	}
+	return "microsecond"
+}
+
+func parseAnyTemporal(s string, isTime bool) (temporal, error) {
+	s = strings.TrimPrefix(s, "@")
+	if isTime {
+		var t temporal
+		t.Y, t.M, t.D = 1970, 1, 1
+		rest, err := parseTemporalTime(&t, strings.TrimPrefix(s, "T"))
+		if err != nil {
+			return t, err
+		}
+		if rest != "" {
+			return t, fmt.Errorf("trailing %q", rest)
+		}
+		return t, nil
+	}
+	t, rest, err := parseTemporalDate(s)
+	if err != nil {
+		return t, err
+	}
+	if strings.HasPrefix(rest, "T") {
+		rest = rest[1:]
+		if rest == "" {
+			return t, nil
+		}
+		rest, err = parseTemporalTime(&t, rest)
+		if err != nil {
+			return t, err
+		}
+		if err := parseTemporalOffset(&t, rest); err != nil {
+			return t, err
+		}
+		return t, nil
+	}
+	if rest != "" {
+		return t, fmt.Errorf("trailing %q", rest)
+	}
+	return t, nil
+}
+
